@@ -426,7 +426,7 @@ def run_sym_group(spec, tier, seed):
                 for sfx, l, r in comps:
                     n_claims += 1
                     oname = "%s/%s%s%s%s" % (spec.name, name, "".join("[%d]" % i for i in idx), sfx, ptag)
-                    results.append(_discharge(oname, kind, l, r, hyps, pts, opts, spec))
+                    results.append(_discharge_guarded(oname, kind, l, r, hyps, pts, opts, spec))
     if n_claims == 0:
         results.append(mk_result(spec.name + "/nonvacuous", "contract generates at least one obligation", "P", "error", "-",
                                  0, "zero obligations generated"))
@@ -435,6 +435,36 @@ def run_sym_group(spec, tier, seed):
         r["prop"] = spec.prop
         r.setdefault("func", spec.funcs[0] if spec.funcs else None)
     return results
+
+
+class _WallClock(Exception):
+    pass
+
+
+def _discharge_guarded(oname, kind, l, r, hyps, pts, opts, spec):
+    """_discharge under a generous wall-clock guard (VT_OBLIGATION_WALL_S, default 600 s): the exact polynomial arithmetic of the normaliser has no resource limit
+    of its own, and a changed function body can make a term explode.  A guard that fires gives `undecided` (never a refutation), so a locked obligation is then reported
+    as no longer discharged instead of hanging the check."""
+    import signal
+
+    budget = int(opts.get("wall_s", os.environ.get("VT_OBLIGATION_WALL_S", "600")))
+    if not hasattr(signal, "SIGALRM") or budget <= 0:
+        return _discharge(oname, kind, l, r, hyps, pts, opts, spec)
+
+    def on_alarm(signum, frame):
+        raise _WallClock()
+
+    old = signal.signal(signal.SIGALRM, on_alarm)
+    signal.alarm(budget)
+    t0 = time.time()
+    try:
+        return _discharge(oname, kind, l, r, hyps, pts, opts, spec)
+    except _WallClock:
+        clause = opts.get("clause") or oname
+        return mk_result(oname, clause, "P", "undecided", "-", time.time() - t0, "wall-clock guard of %d s fired (exact arithmetic over budget)" % budget)
+    finally:
+        signal.alarm(0)
+        signal.signal(signal.SIGALRM, old)
 
 
 def _boundary_points(claims, hyps, base_pts, tm, limit=48):
